@@ -530,7 +530,10 @@ func (s *Server) setConfig(dc *jsonDNSConfig) (shouldRestart bool) {
 	}
 
 	if dc.ProtectionEnabled != nil {
-		s.dnsFilter.SetProtectionEnabled(*dc.ProtectionEnabled)
+		// An explicit value also ends the pause, if there is one.  Otherwise,
+		// the protection switched on here would stay paused, and the one
+		// switched off would be switched on again when the pause ends.
+		s.dnsFilter.SetProtectionStatus(*dc.ProtectionEnabled, nil)
 	}
 
 	if dc.UpstreamMode != nil {
